@@ -21,7 +21,8 @@ From LV Require Import Base.Bytes Base.Sx Model.Obj Model.DocQ Gen.Crypto
   Model.Crypto.Word Model.Crypto.MD5 Model.Crypto.RC4 Model.Crypto.PKCS5 Model.Crypto.Handler Model.Crypto.Concrete
   Spec.Crypto.Iso Spec.Crypto.IsoConcrete
   Proofs.CryptoProofs Proofs.CryptoProofsFilter Proofs.CryptoProofsObject Proofs.IsoProofs Proofs.IsoProofsData
-  Proofs.IsoProofsObj Proofs.IsoProofsFilter Proofs.IsoProofsAuth Proofs.IsoProofsDoc Proofs.IsoProofsExamples.
+  Proofs.CryptoProofsDoc Proofs.IsoProofsObj Proofs.IsoProofsFilter Proofs.IsoProofsAuth Proofs.IsoProofsDoc Proofs.IsoProofsRT
+  Proofs.IsoProofsDoc2 Proofs.IsoProofsExamples Proofs.CryptoProofsAES.
 Local Open Scope N_scope.
 
 (* ---------------- rung 1: constants and formulations ---------------- *)
@@ -284,10 +285,92 @@ Theorem C06_example_request_ok :
   (request_ok_r4 ex_rq_v4 /\ doc_ok (rq_core ex_rq_v4) ex_doc None).
 Proof. exact (conj ex_request_ok_v2 ex_request_ok_v4). Qed.
 
-(* The direction lopdf -> standard at object level is C06_encrypt_object (lopdf's output IS the standard writer's
-   output) together with C06_lopdf_data_iso_decrypt per string/stream; the object- and document-level round trip
-   of the SPECIFICATION's reader (decrypt_indirect . encrypt_indirect = id, open_document . encrypt_document = id)
-   is not proved -- it is computed on the instances below and checked on every generated case. *)
+(* ---- direction lopdf -> standard ---- *)
+(* the standard's reader undoes the standard's writer on EVERY object (strings at every depth, stream dictionaries,
+   stream data, exemptions; the crypt filter a stream selects does not depend on the contents of its strings);
+   [iso_norm]: a stream comes back with its Length entry set (itself when Length was right: C06_iso_norm_exact) *)
+Theorem C06_iso_object_roundtrip : forall P, (forall m, length (p_md5 P m) = 16%nat) -> aes_ok P ->
+  forall ip fek id, method_ok (string_method ip) fek -> (forall sd, method_ok (stream_method ip sd) fek) ->
+  forall o ivs,
+  decrypt_indirect (iprims_of P) ip fek id (fst (encrypt_indirect (iprims_of P) ip fek id o ivs)) = Some (iso_norm ip o).
+Proof. exact indirect_rt. Qed.
+
+(* the standard reads out of the dictionary EncryptionState::encode writes (Tables 20, 21, 25 with their defaults)
+   the parameters lopdf encrypted with *)
+Theorem C06_read_params_encode : forall st, st_shape_r4 st -> NoDup (map fst (es_crypt_filters st)) ->
+  read_params (encode st) = Some (ip_of_st st).
+Proof. exact read_params_encode. Qed.
+
+(* the standard's reader opens what lopdf wrote: for ANY state of the shapes try_from(V1 / V2 / V4) makes and any
+   password for which the standard's opening procedure (Algorithm 6, else 7) yields the key lopdf encrypted with *)
+Theorem C06_iso_opens_lopdf_r4 : forall P, (forall m, length (p_md5 P m) = 16%nat) -> aes_ok P ->
+  forall st d ivs d1 pw,
+  lst_ok st -> max_id_ok d -> dict_get (d_trailer d) K_Encrypt = None ->
+  Forall (fun io => indirect_ok (ip_of_st st) (snd io)) (d_objects d) ->
+  doc_encrypt P st d ivs = DOk d1 tt ->
+  open_key (iprims_of P) (ip_of_st st) (file_id0 (d_trailer d)) pw = Some (es_key st) ->
+  open_document (iprims_of P) d1 pw =
+  Opened {| d_version := d_version d; d_binary_mark := d_binary_mark d; d_trailer := d_trailer d;
+            d_objects := iso_norm_objs (ip_of_st st) (d_objects d); d_max_id := d_max_id d + 1 |} (es_key st).
+Proof. exact iso_opens_lopdf_r4. Qed.
+
+(* EncryptionState::try_from(V1 / V2 / V4) computes the standard's O (Algorithm 3; an empty owner password = none),
+   U (Algorithm 4 / 5) and key (Algorithm 2) *)
+Theorem C06_try_from_version : forall P, (forall m, length (p_md5 P m) = 16%nat) ->
+  forall d id0, file_id_0 d = Ok id0 -> forall v rnd, version_ok v ->
+  try_from_version P d v rnd = Ok (st_of_version P id0 v rnd).
+Proof. exact try_from_version_eq. Qed.
+
+(* the interoperability statement of the property, direction lopdf -> standard, revisions 2-4: what
+   EncryptionState::try_from + Document::encrypt produce is opened by the standard's reader with the user password
+   ... *)
+Theorem C06_lopdf_encrypt_iso_decrypt_user_r4 : forall P, (forall m, length (p_md5 P m) = 16%nat) -> aes_ok P ->
+  forall d id0 v rnd ivs st d1,
+  file_id_0 d = Ok id0 -> version_ok v -> max_id_ok d -> dict_get (d_trailer d) K_Encrypt = None ->
+  Forall (fun io => indirect_ok (ip_of_st (st_of_version P id0 v rnd)) (snd io)) (d_objects d) ->
+  try_from_version P d v rnd = Ok st -> doc_encrypt P st d ivs = DOk d1 tt ->
+  open_document (iprims_of P) d1 (v_user v) = Opened (plain_again d st) (es_key st).
+Proof. exact lopdf_encrypt_iso_decrypt_user_r4. Qed.
+
+(* ... and with the owner password *)
+Theorem C06_lopdf_encrypt_iso_decrypt_owner_r4 : forall P, (forall m, length (p_md5 P m) = 16%nat) -> aes_ok P ->
+  forall d id0 v rnd ivs st d1,
+  file_id_0 d = Ok id0 -> version_ok v -> max_id_ok d -> dict_get (d_trailer d) K_Encrypt = None ->
+  Forall (fun io => indirect_ok (ip_of_st (st_of_version P id0 v rnd)) (snd io)) (d_objects d) ->
+  try_from_version P d v rnd = Ok st -> doc_encrypt P st d ivs = DOk d1 tt ->
+  v_owner v <> [] ->
+  alg6 (iprims_of P) (ip_R (ip_of_st st)) (ip_Length (ip_of_st st)) (ip_O (ip_of_st st)) (ip_U (ip_of_st st))
+       (ip_P (ip_of_st st)) id0 (ip_EncryptMetadata (ip_of_st st)) (v_owner v) = None ->
+  open_document (iprims_of P) d1 (v_owner v) = Opened (plain_again d st) (es_key st).
+Proof. exact lopdf_encrypt_iso_decrypt_owner_r4. Qed.
+
+Theorem C06_iso_norm_exact : forall ip m, Forall (fun io => iso_length_ok ip (snd io)) m -> iso_norm_objs ip m = m.
+Proof. exact iso_norm_objs_id. Qed.
+
+Theorem C06_example_version_ok :
+  version_ok (EV2 [] (bs "user") 128 2052) /\
+  version_ok (EV4 false [(KP, CF_Identity); (KS, CF_AESV2)] KS N_Identity (bs "owner") (bs "user") 2052) /\
+  max_id_ok ex_doc /\ dict_get (d_trailer ex_doc) K_Encrypt = None.
+Proof. exact ex_version_ok. Qed.
+
+(* For the executable primitives (the Gallina MD5 / AES the extracted specification runs with) the two hypotheses
+   are theorems -- C06_md5_length, and aes_ok concrete (Proofs/CryptoProofsAES.v; property C05's C05_aes_inverse) --, so
+   both directions hold with no hypothesis about the primitives: *)
+Theorem C06_iso_encrypt_lopdf_decrypt_user_r4_concrete : forall rq eid rnd ivs d id0,
+  request_ok_r4 rq -> doc_ok (rq_core rq) d eid -> file_id_0 d = Ok id0 ->
+  doc_decrypt concrete (encrypt_document iconcrete rq eid rnd ivs d) (rq_user rq) =
+  DOk (opened_doc d eid (st_of (ip_r4 concrete rq id0 rnd) (fek_r4 concrete rq id0)))
+      (st_of (ip_r4 concrete rq id0 rnd) (fek_r4 concrete rq id0)).
+Proof.
+  intros rq eid rnd ivs d id0. exact (iso_encrypt_lopdf_decrypt_user_r4 concrete md5_length rq eid rnd ivs d id0 concrete_aes_ok).
+Qed.
+
+Theorem C06_lopdf_encrypt_iso_decrypt_user_r4_concrete : forall d id0 v rnd ivs st d1,
+  file_id_0 d = Ok id0 -> version_ok v -> max_id_ok d -> dict_get (d_trailer d) K_Encrypt = None ->
+  Forall (fun io => indirect_ok (ip_of_st (st_of_version concrete id0 v rnd)) (snd io)) (d_objects d) ->
+  try_from_version concrete d v rnd = Ok st -> doc_encrypt concrete st d ivs = DOk d1 tt ->
+  open_document iconcrete d1 (v_user v) = Opened (plain_again d st) (es_key st).
+Proof. exact (lopdf_encrypt_iso_decrypt_user_r4 concrete md5_length concrete_aes_ok). Qed.
 
 (* ---------------- non-vacuity and computed whole-document instances ---------------- *)
 Theorem C06_example_matches_r4 : matches_r4 ex_palg 3 128 (zeros 32) (zeros 32) (-1340) true.
@@ -381,6 +464,16 @@ Print Assumptions C06_iso_encrypt_lopdf_decrypt_user_r4.
 Print Assumptions C06_iso_encrypt_lopdf_decrypt_owner_r4.
 Print Assumptions C06_opened_exact.
 Print Assumptions C06_example_request_ok.
+Print Assumptions C06_iso_object_roundtrip.
+Print Assumptions C06_read_params_encode.
+Print Assumptions C06_iso_opens_lopdf_r4.
+Print Assumptions C06_try_from_version.
+Print Assumptions C06_lopdf_encrypt_iso_decrypt_user_r4.
+Print Assumptions C06_lopdf_encrypt_iso_decrypt_owner_r4.
+Print Assumptions C06_iso_norm_exact.
+Print Assumptions C06_example_version_ok.
+Print Assumptions C06_iso_encrypt_lopdf_decrypt_user_r4_concrete.
+Print Assumptions C06_lopdf_encrypt_iso_decrypt_user_r4_concrete.
 Print Assumptions C06_example_matches_r4.
 Print Assumptions C06_example_state_matches.
 Print Assumptions C06_example_iso_encrypt_lopdf_decrypt.
